@@ -34,9 +34,22 @@ BUILTIN_EXC = {'IndexError': IndexError, 'KeyError': KeyError, 'ValueError': Val
 
 
 class Folder:
-    def __init__(self, functions: Dict[str, ast.FunctionDef], budget=200000):
+    def __init__(self, functions: Dict[str, ast.FunctionDef], budget=200000, module_tree=None):
         self.functions = functions
         self.budget = budget
+        # module-level names bound exactly once to a literal built from constants (tuples / lists of constants and of such tuples): named constants
+        self.constants = {}
+        if module_tree is not None:
+            seen = {}
+            for st in module_tree.body:
+                if isinstance(st, ast.Assign) and len(st.targets) == 1 and isinstance(st.targets[0], ast.Name):
+                    seen.setdefault(st.targets[0].id, []).append(st.value)
+            for k, vs in seen.items():
+                if len(vs) == 1:
+                    try:
+                        self.constants[k] = ast.literal_eval(vs[0])
+                    except (ValueError, SyntaxError, TypeError):
+                        pass
 
     def call(self, name: str, *args, **kwargs):
         fn = self.functions.get(name)
@@ -92,6 +105,14 @@ class Folder:
                     env[s.target.id] = v
                     self.block(s.body, env)
                 continue
+            if isinstance(s, ast.For) and isinstance(s.target, ast.Tuple) and all(isinstance(t, ast.Name) for t in s.target.elts) and not s.orelse:
+                for v in self._iter(self.expr(s.iter, env)):
+                    if not isinstance(v, (tuple, list)) or len(v) != len(s.target.elts):
+                        raise NotFoldable('unpacking in a for target')
+                    for t, x in zip(s.target.elts, v):
+                        env[t.id] = x
+                    self.block(s.body, env)
+                continue
             if isinstance(s, ast.Try) and not s.finalbody and not s.orelse:
                 try:
                     self.block(s.body, env)
@@ -136,6 +157,8 @@ class Folder:
         if isinstance(e, ast.Name):
             if e.id in env:
                 return env[e.id]
+            if e.id in self.constants and isinstance(self.constants[e.id], (str, int, bool, tuple, list, type(None))):
+                return self.constants[e.id]
             raise NotFoldable(f"free name {e.id}")
         if isinstance(e, ast.JoinedStr):
             out = ''
